@@ -9,4 +9,9 @@ Pats2All == Pats(LvAll, 2)
 ShrinkSmall == Pats({"a", "b", "r:.*", "r:[^a]"}, 2)
 ShrinkSmall3 == Pats({"a", "b", "r:.*", "r:[^a]"}, 3)
 NamesAB == {"a", "b"}
+\* regex semantics beyond the wildcard: names a / ab against alternations and lazy quantifiers
+NamesRx == {"a", "ab"}
+LvRx == {"ab", "r:a|ab", "r:a.*?", "r:a", "r:.*"}
+PatsRx == Pats(LvRx, 2)
+ShrinkRx == Pats({"r:.*", "r:a"}, 2)
 ====
